@@ -52,11 +52,13 @@ func loopCounter(l *Loop, tm *Termer) (bound *Term, phi *ssa.Phi, ok bool) {
 
 // C20 — experiment protocol.
 func C20(p *Prog, r *Run) {
-	r.Explanation = "Decided on Experiment.Execute by flag-sensitive path search over its SSA control-flow graph (two loops; the observer's nil-ness is tracked along each path): per trial iteration exactly one NewPopulation(start genome, options) before the generation loop, TrialRunStarted exactly once before the first generation, the trial recorded exactly once at e.Trials[run] on every non-error path, TrialRunFinished exactly once on every non-error path and never followed by EpochEvaluated; per generation iteration the context test precedes the evaluation and, on every path after it on which the Done channel was ready, Execute returns Err() of that same context (read after the test) before any further event of the protocol (phis, result variables and result slots resolved along the path), exactly one GenerationEvaluate whose error returns at once, NextEpoch only under !Solved, at most once, its error returned, append-then-EpochEvaluated exactly once in that order, under Solved the iteration leaves the loop; counters run 0,1,… below NumRuns / NumGenerations, tested in the effect-free loop condition (any spelling of the test; the loop condition may additionally test a flag that is raised only under generation.Solved, nothing else), a break out of the generation loop only under Solved; the record handed to the evaluator is allocated or reset in every generation so that its Solved flag is false at the call; every notification is delivered to the observer parameter whenever it is non-nil and, when it is nil, is either not executed or addressed to a substitute whose method body is empty (decided per value that can be the receiver, on the edge that selects it); the errors of GenerationEvaluate / NextEpoch are the value returned on every path after the failing call (phis resolved along the path); the executor selection covers every EpochExecutorType constant and errors when all type tests fail (decided per way the operands of each return can be chosen).; with the options present in the context nothing returns before the trial loop, and every return that leaves the trial loop from its body returns a value that is a non-nil error on the path taken (a nil test of that value passed, or an error by construction); the result holder e.Trials is only ever replaced by make(Trials, <bound of the trial loop>) before the first trial or while nil, a nil holder never reaches the recording store, and the repository's caller of Execute (func main of the root package) hands over no holder or one made from NumRuns of the options in the call's context with no write of NumRuns between the sizing and the call (ordering across function literals by the places where they are started); the values the events carry are identified (recorded trial = trial shown to the observer = trial the generations are appended to, fresh per trial, numbered by the trial counter; record appended and shown = record the evaluator filled, numbered by the generation and trial counters; population evaluated = population turned over = population spawned for the trial; NextEpoch is told the generation counter). Assumption: the observer and NextEpoch do not flip generation.Solved between its two reads. Not decided: what the evaluator, observer and executor do."
+	r.Explanation = "Decided on Experiment.Execute by flag-sensitive path search over its SSA control-flow graph (two loops; the observer's nil-ness is tracked along each path): per trial iteration exactly one NewPopulation(start genome, options) before the generation loop, TrialRunStarted exactly once before the first generation, the trial recorded exactly once at e.Trials[run] on every non-error path, TrialRunFinished exactly once on every non-error path and never followed by EpochEvaluated; per generation iteration the context test precedes the evaluation and, on every path after it on which the Done channel was ready, Execute returns Err() of that same context (read after the test) before any further event of the protocol (phis, result variables and result slots resolved along the path), exactly one GenerationEvaluate whose error returns at once, NextEpoch only under !Solved, at most once, its error returned, append-then-EpochEvaluated exactly once in that order, under Solved the iteration leaves the loop; counters run 0,1,… below NumRuns / NumGenerations, tested in the effect-free loop condition (any spelling of the test; the loop condition may additionally test a flag that is raised only under generation.Solved, nothing else), a break out of the generation loop only under Solved; the record handed to the evaluator is allocated or reset in every generation so that its Solved flag is false at the call; every notification is delivered to the observer parameter whenever it is non-nil and, when it is nil, is either not executed or addressed to a substitute whose method body is empty (decided per value that can be the receiver, on the edge that selects it); the errors of GenerationEvaluate / NextEpoch are the value returned on every path after the failing call (phis resolved along the path); the executor selection covers every EpochExecutorType constant and errors when all type tests fail (decided per way the operands of each return can be chosen).; with the options present in the context nothing returns before the trial loop, and every return that leaves the trial loop from its body returns a value that is a non-nil error on the path taken (a nil test of that value passed, or an error by construction); the result holder e.Trials is only ever replaced by make(Trials, <bound of the trial loop>) before the first trial or while nil, a nil holder never reaches the recording store, and the repository's caller of Execute (func main of the root package) hands over no holder or one made from NumRuns of the options in the call's context with no write of NumRuns between the sizing and the call (ordering across function literals by the places where they are started); the values the events carry are identified (recorded trial = trial shown to the observer = trial the generations are appended to, fresh per trial, numbered by the trial counter; record appended and shown = record the evaluator filled, numbered by the generation and trial counters; population evaluated = population turned over = population spawned for the trial; NextEpoch is told the generation counter). Equivalent shapes read as such: a trial variable that is a field of a by-value local struct is that variable; a population kept in such a field or in a local shared with closures is the spawned one when every store to it stores the result of NewPopulation next to the call; the preparation steps of a trial written as a loop over a literal slice of closures, each called once in order and a non-nil error returned at once, are the sequence of those steps (NewPopulation / the executor selection may sit in one step; a step makes no protocol call and writes only captured locals); an executor selection by lookup in a literal map from executor type to constructor is the switch over its keys. Assumption: the observer and NextEpoch do not flip generation.Solved between its two reads. Not decided: what the evaluator, observer and executor do."
 	ex := p.Func(PkgE, "Experiment.Execute")
 	r.Fn(FuncName(ex))
 	tm := NewTermer(ex)
-	loops := Loops(ex)
+	allLoops := Loops(ex)
+	// a loop over a literal slice of step closures is a ladder of steps, not a loop of the protocol (robust_c20.go, fifth round (3))
+	steps, loops := c20StepLoops(ex, allLoops)
 	if len(loops) != 2 {
 		r.Rule("C20.0", "Execute has a trial loop and a generation loop", func() {
 			r.Undecided("Execute.loops", p.Pos(ex.Pos()), fmt.Sprintf("expected 2 loops in Execute, found %d", len(loops)))
@@ -66,6 +68,42 @@ func C20(p *Prog, r *Run) {
 	outer, inner := loops[0], loops[1]
 	if len(inner.Blocks) > len(outer.Blocks) {
 		outer, inner = inner, outer
+	}
+	if len(steps) > 0 {
+		stepBad := ""
+		for _, s := range steps {
+			for _, f := range s.Fns {
+				if why := c20StepClosureProblem(p, f); why != "" && stepBad == "" {
+					stepBad = "the step closure " + f.Name() + " is not a plain preparation step: " + why
+				}
+			}
+			// a failed step ends the run: nothing of the trial loop is reachable from the error exits of the ladder
+			for b := range c15ReachableFrom(s.ErrExits) {
+				if outer.Blocks[b] && stepBad == "" {
+					stepBad = "after a failed step of the ladder @" + p.Pos(s.At.Pos()) + " the trial loop goes on"
+				}
+			}
+		}
+		if stepBad != "" {
+			r.Rule("C20.0", "Execute has a trial loop and a generation loop", func() {
+				r.Undecided("Execute.steps", p.Pos(ex.Pos()), stepBad)
+			})
+			return
+		}
+	}
+	// stepSites: the instructions of the step closures that satisfy pred
+	stepSites := func(pred func(ssa.Instruction) bool) []c20StepSite {
+		var out []c20StepSite
+		for _, s := range steps {
+			for k, f := range s.Fns {
+				Instrs(f, func(_ *ssa.BasicBlock, _ int, in ssa.Instruction) {
+					if pred(in) {
+						out = append(out, c20StepSite{S: s, K: k, In: in})
+					}
+				})
+			}
+		}
+		return out
 	}
 	observer := ssa.Value(ex.Params[4])
 
@@ -137,6 +175,50 @@ func C20(p *Prog, r *Run) {
 	// exactlyOnce: within one iteration of loop l, event occurs exactly once on every non-error path.
 	exactlyOnce := func(l *Loop, what string, ev func(ssa.Instruction) bool, withObserver bool, label string) {
 		sites := findAll(ev)
+		if ss := stepSites(ev); len(ss) > 0 {
+			// the event is made by a step closure of a ladder: it happens when the ladder runs that step
+			first := ss[0]
+			S, fk := first.S, first.S.Fns[first.K]
+			pos := p.Pos(first.In.Pos())
+			if len(sites) > 0 {
+				r.Bad(label+".at-most-once", pos, what+" happens both in Execute and in a step closure of the ladder @"+p.Pos(S.At.Pos()))
+				return
+			}
+			for _, x := range ss[1:] {
+				if x.S != S || x.K != first.K {
+					r.Bad(label+".at-most-once", pos, what+" is made by more than one step closure")
+					return
+				}
+			}
+			// at least once: every completed iteration of l runs the ladder to its end (takes the exit of its counter
+			// test), and the step cannot return without the event
+			path := fromIterStart(l, PathQuery{Fn: ex, TargetEdge: iterEnd(l), AvoidEdge: S.CompleteExit, Explored: &r.PathsExplored})
+			if path == nil {
+				path = FindPath(p, PathQuery{Fn: fk, Target: IsReturn, Avoid: ev, Explored: &r.PathsExplored})
+			}
+			if path != nil {
+				r.Bad(label+".at-least-once", pos, "an iteration can complete without "+what, path...)
+			} else {
+				r.OK(label+".at-least-once", pos, "every non-error path of one iteration runs the ladder of steps to its end, and its step "+fk.Name()+" passes "+what)
+			}
+			// at most once: the ladder lies in l and in no loop inside l (it runs at most once per iteration, each step once),
+			// and inside the step the event is not reachable from itself
+			nested := !l.Blocks[S.L.Header]
+			for _, m := range allLoops {
+				if m != S.L && m != l && m.Blocks[S.L.Header] && l.Blocks[m.Header] {
+					nested = true
+				}
+			}
+			for _, x := range ss {
+				again := FindPath(p, PathQuery{Fn: fk, StartAfter: x.In, Target: ev, Explored: &r.PathsExplored})
+				if nested || again != nil {
+					r.Bad(label+".at-most-once", p.Pos(x.In.Pos()), what+" can happen twice in one iteration", again...)
+				} else {
+					r.OK(label+".at-most-once", p.Pos(x.In.Pos()), what+" happens at most once per iteration")
+				}
+			}
+			return
+		}
 		if len(sites) == 0 {
 			r.Bad(label+".exists", p.Pos(ex.Pos()), "no "+what+" in Execute")
 			return
@@ -308,6 +390,14 @@ func C20(p *Prog, r *Run) {
 			r.Check(isParamIdx(a[0], 2), "trial.NewPopulation.genome", p.Pos(s.Pos()), "spawned from the start genome parameter", "population is spawned from "+a[0].String())
 			r.Check(!inner.Blocks[s.Block()] && outer.Blocks[s.Block()] && s.Block().Dominates(inner.Header), "trial.NewPopulation.place", p.Pos(s.Pos()),
 				"inside the trial loop, dominating the generation loop", "NewPopulation is not placed once per trial before the generation loop")
+		}
+		for _, s := range stepSites(isNewPop) {
+			c := s.In.(ssa.CallInstruction)
+			got := s.S.capturedValue(s.K, c.Common().Args[0])
+			r.Check(got != nil && got == ssa.Value(ex.Params[2]), "trial.NewPopulation.genome", p.Pos(s.In.Pos()), "spawned from the start genome parameter", "population is spawned from "+NewTermer(s.S.Fns[s.K]).Of(c.Common().Args[0]).String())
+			h := s.S.L.Header
+			r.Check(!inner.Blocks[h] && outer.Blocks[h] && h.Dominates(inner.Header), "trial.NewPopulation.place", p.Pos(s.In.Pos()),
+				"made by a ladder of steps inside the trial loop that dominates the generation loop", "NewPopulation is not placed once per trial before the generation loop")
 		}
 		exactlyOnce(outer, "TrialRunStarted", isInvoke("TrialRunStarted"), true, "trial.started")
 		for _, s := range findAll(isInvoke("TrialRunStarted")) {
@@ -671,11 +761,36 @@ func C20(p *Prog, r *Run) {
 			return res
 		}
 		lookupBad := ""
+		// a lookup of the executor type in a literal map is a type test as well: a hit says the type equals one of the
+		// keys (one case per entry), a miss refutes all of them (c20SelectionCases)
+		isTypeKey := func(v ssa.Value) bool { return strings.Contains(ts.Of(v).String(), ".EpochExecutorType") }
+		type selLeaf struct {
+			c20RetLeaf
+			c20SelCase
+		}
+		var cases []selLeaf
 		for _, lf := range leaves {
+			for _, sc := range c20SelectionCases(lf, ts, isTypeKey) {
+				cases = append(cases, selLeaf{lf, sc})
+			}
+		}
+		for _, lf := range cases {
 			ret := lf.Ret
-			v, e := ts.Of(lf.Vals[0]), ts.Of(lf.Vals[1])
+			v, e := lf.V, lf.E
 			matched := ""
 			typeTests, refuted := 0, 0
+			if lf.Key != nil {
+				typeTests++
+				for _, c := range consts {
+					if c.Val().ExactString() == lf.Key.Value.ExactString() {
+						matched = c.Name()
+					}
+				}
+			}
+			if lf.Miss {
+				typeTests++
+				refuted++
+			}
 			for _, g := range lf.Guards {
 				gt := ts.Of(g.Cond)
 				if gt.Op == "bin" && gt.Name == "==" && strings.Contains(gt.String(), ".EpochExecutorType") {
@@ -721,7 +836,11 @@ func C20(p *Prog, r *Run) {
 		r.Check(errDefault, "executor.default", p.Pos(sel.Pos()), "an unknown executor type yields an error", "an unknown executor type does not yield an error")
 		// Execute uses it once per trial and returns its error
 		cs := CallsTo(ex, sel)
-		r.Check(len(cs) == 1 && !inner.Blocks[cs[0].Block()], "executor.use", p.Pos(ex.Pos()), "selected once per trial", "the executor is not selected exactly once per trial outside the generation loop")
+		selSteps := stepSites(func(in ssa.Instruction) bool {
+			c, ok := in.(ssa.CallInstruction)
+			return ok && c.Common().StaticCallee() == sel
+		})
+		r.Check((len(cs) == 1 && len(selSteps) == 0 && !inner.Blocks[cs[0].Block()]) || (len(cs) == 0 && len(selSteps) == 1 && !inner.Blocks[selSteps[0].S.L.Header]), "executor.use", p.Pos(ex.Pos()), "selected once per trial", "the executor is not selected exactly once per trial outside the generation loop")
 	})
 
 	r.Rule("C20.5", "what the events carry: the trial value recorded at e.Trials[run] is the one the observer was shown and the generations were appended to, it is fresh in every trial and numbered by the trial counter; the generation record appended to it and shown to the observer is the one the evaluator filled, numbered by the generation counter and the trial counter; the population evaluated and turned over is the one spawned for this trial, and the turnover is told the generation counter", func() {
@@ -729,49 +848,63 @@ func C20(p *Prog, r *Run) {
 		_, genPhi, _, okGen := cInner.Counter(tm)
 		isCounter := func(v ssa.Value, ph *ssa.Phi, ok bool) bool { return ok && c20Strip(v) == ssa.Value(ph) }
 		// the trial value
-		var T *ssa.Alloc
+		// (a variable: a local, or a field of a by-value local struct - c20Place)
+		var T c20Place
 		for _, s := range findAll(isTrialStore) {
 			ld, isLoad := c20Strip(s.(*ssa.Store).Val).(*ssa.UnOp)
-			var a *ssa.Alloc
+			var a c20Place
 			if isLoad && ld.Op == token.MUL {
-				a = c20AllocOf(ld.X)
+				a, _ = c20PlaceOf(ld.X)
 			}
-			if a == nil {
+			if !a.valid() {
 				r.Bad("carry.trial.recorded", p.Pos(s.Pos()), "the value recorded at e.Trials[run] is not the content of a trial variable: "+tm.Of(s.(*ssa.Store).Val).String())
 				continue
 			}
-			if T != nil && T != a {
+			if T.valid() && T != a {
 				r.Bad("carry.trial.recorded", p.Pos(s.Pos()), "two different trial variables are recorded")
 				continue
 			}
 			T = a
 			r.OK("carry.trial.recorded", p.Pos(s.Pos()), "the content of one trial variable is recorded")
 		}
-		if T == nil {
+		if !T.valid() {
 			r.Undecided("carry.trial", p.Pos(ex.Pos()), "no trial variable identified")
 			return
 		}
 		for _, name := range []string{"TrialRunStarted", "EpochEvaluated", "TrialRunFinished"} {
 			for _, s := range findAll(isInvoke(name)) {
 				args := s.(ssa.CallInstruction).Common().Args
-				r.Check(len(args) > 0 && c20AllocOf(args[0]) == T, "carry.trial."+name, p.Pos(s.Pos()), name+" is shown the trial that is recorded",
+				shown, okShown := c20Place{}, false
+				if len(args) > 0 {
+					shown, okShown = c20PlaceOf(args[0])
+				}
+				r.Check(okShown && shown == T, "carry.trial."+name, p.Pos(s.Pos()), name+" is shown the trial that is recorded",
 					name+" is shown another trial value than the one recorded at e.Trials[run]")
 			}
 		}
 		// fresh in every trial: allocated, or overwritten with a fresh literal, inside the trial loop before the generation loop
-		fresh := outer.Blocks[T.Block()] && !inner.Blocks[T.Block()] && T.Block().Dominates(inner.Header)
-		if !fresh && T.Referrers() != nil {
-			for _, ref := range *T.Referrers() {
-				if st, ok := ref.(*ssa.Store); ok && st.Addr == ssa.Value(T) && outer.Blocks[st.Block()] && !inner.Blocks[st.Block()] &&
-					st.Block().Dominates(inner.Header) && c20FreshStructValue(st.Val, outer, nil) {
-					fresh = true
+		// (the allocation that holds the variable - the variable itself or the struct it is a field of - comes into being
+		// zeroed each time its Alloc executes)
+		fresh := outer.Blocks[T.A.Block()] && !inner.Blocks[T.A.Block()] && T.A.Block().Dominates(inner.Header)
+		if !fresh {
+			tAddrs, _ := c20PlaceAddrs(T)
+			for _, ta := range tAddrs {
+				if ta.Referrers() == nil {
+					continue
+				}
+				for _, ref := range *ta.Referrers() {
+					if st, ok := ref.(*ssa.Store); ok && st.Addr == ta && st.Parent() == ex && outer.Blocks[st.Block()] && !inner.Blocks[st.Block()] &&
+						st.Block().Dominates(inner.Header) && c20FreshStructValue(st.Val, outer, nil) {
+						fresh = true
+					}
 				}
 			}
 		}
-		r.Check(fresh, "carry.trial.fresh", p.Pos(T.Pos()), "the trial variable starts empty in every trial",
+		r.Check(fresh, "carry.trial.fresh", p.Pos(T.A.Pos()), "the trial variable starts empty in every trial",
 			"the trial variable is neither allocated nor reset inside the trial loop before the generation loop: a trial starts with the generations of the previous one")
-		checkDefs := func(a *ssa.Alloc, typ, field string, ph *ssa.Phi, okPh bool, label, what string) {
-			defs := c20HolderDefs(a, p.Field(PkgE, typ, field))
+		checkDefs := func(pl c20Place, typ, field string, ph *ssa.Phi, okPh bool, label, what string) {
+			a := pl.A
+			defs := c20PlaceDefs(pl, p.Field(PkgE, typ, field))
 			bad := ""
 			n := 0
 			for _, d := range defs {
@@ -819,21 +952,65 @@ func C20(p *Prog, r *Run) {
 				okApp, why := c20AppendsRecord(st, T, G)
 				r.Check(okApp, "carry.generation.append", p.Pos(s.Pos()), "the evaluated record is appended to the generations of the recorded trial", "the append does not add the evaluated record to the recorded trial's generations: "+why)
 			}
-			checkDefs(G, "Generation", "Id", genPhi, okGen, "carry.generation.id", "the generation counter")
-			checkDefs(G, "Generation", "TrialId", runPhi, okRun, "carry.generation.trial-id", "the trial counter")
+			checkDefs(c20Place{A: G}, "Generation", "Id", genPhi, okGen, "carry.generation.id", "the generation counter")
+			checkDefs(c20Place{A: G}, "Generation", "TrialId", runPhi, okRun, "carry.generation.trial-id", "the trial counter")
 		}
 		// the population
 		isSpawned := func(v ssa.Value) bool {
 			alts := tm.Of(v).Alternatives()
 			n := 0
+			viaTerms := true
 			for _, a := range alts {
 				if a.Op == "nil" {
 					continue
 				}
 				if !(a.Op == "extract" && a.Idx == 0 && len(a.Args) == 1 && a.Args[0].Op == "call" && a.Args[0].Obj == types.Object(p.Func(PkgG, "NewPopulation").Object())) {
+					viaTerms = false
+					break
+				}
+				n++
+			}
+			if viaTerms && n > 0 {
+				return true
+			}
+			// the population may be kept in a variable that lives in memory (a field of a by-value local struct, a local
+			// shared with closures): it is the spawned one when the variable is private, everything ever stored to it is
+			// the first result of NewPopulation (or nil), and each such store sits in the block of its call - whenever
+			// a population is spawned the variable is updated with it, so after this trial's spawning (exactly once per
+			// trial, before the generation loop: trial.NewPopulation) it holds this trial's population
+			leaves, through := c20CellOrigins(v)
+			if len(through) == 0 {
+				return false
+			}
+			spawnCall := func(x ssa.Value) *ssa.Call {
+				e, ok := c20Strip(x).(*ssa.Extract)
+				if !ok || e.Index != 0 {
+					return nil
+				}
+				call, ok := e.Tuple.(*ssa.Call)
+				if !ok || call.Call.StaticCallee() != p.Func(PkgG, "NewPopulation") {
+					return nil
+				}
+				return call
+			}
+			n = 0
+			for _, lf := range leaves {
+				if c20IsNilConst(lf) {
+					continue
+				}
+				if spawnCall(lf) == nil {
 					return false
 				}
 				n++
+			}
+			for _, st := range through {
+				if c20IsNilConst(c20Strip(st.Val)) {
+					continue
+				}
+				call := spawnCall(st.Val)
+				if call == nil || call.Block() != st.Block() {
+					return false
+				}
 			}
 			return n > 0
 		}
